@@ -289,7 +289,11 @@ impl LevelManifest {
 			levels_vec.len()
 		);
 
-		// Validate last_sequence matches the maximum sequence number across all tables
+		// Validate last_sequence covers the maximum sequence number across all tables.
+		// It is a floor for the next commit sequence, not an exact maximum: when a
+		// compaction drops the table that carried the highest sequence number (a
+		// tombstone reaching the bottom level can drop every entry), last_sequence
+		// legitimately stays above what the remaining tables contain.
 		let computed_max_seq = levels_vec
 			.iter()
 			.flat_map(|level| level.tables.iter())
@@ -297,7 +301,7 @@ impl LevelManifest {
 			.max()
 			.unwrap_or(0);
 
-		if computed_max_seq != last_sequence {
+		if computed_max_seq > last_sequence {
 			return Err(Error::LoadManifestFail(format!(
 				"Manifest last_sequence mismatch: stored={}, computed from tables={}",
 				last_sequence, computed_max_seq
